@@ -20,7 +20,7 @@ LEVEL = "model_checking"
 
 
 def atoms() -> list:
-    return [Lit("a"), Lit("it's"), Lit('q"q'), Lit("b\\s"), Lit("é"), Lit("\n\t"), Lit("'\""), Rx("[ab]"), Rx("a'b"), Rx('c"d'), Rx("\\d\\."), NT("<x>")]
+    return [Lit("a"), Lit("it's"), Lit('q"q'), Lit("b\\s"), Lit("é"), Lit("\n\t"), Lit("'\""), Rx("[ab]"), Rx("a'b"), Rx('c"d'), Rx("""['"]a"""), Rx("\\d\\."), NT("<x>")]
 
 
 def bin_atoms() -> list:
@@ -92,7 +92,7 @@ def to_ref(spec, binary) -> RefGrammar:
 
 def distinguishing_word(g1: RefGrammar, g2: RefGrammar):
     """a word of one language that is not in the other (search over both grammars' small derivations)"""
-    strings = ["", "a", "b", "ab", "a'b", 'c"d', "1.", "7."]
+    strings = ["", "a", "b", "ab", "a'b", 'c"d', "1.", "7.", '"a', "'a"]
     for ga, gb in ((g1, g2), (g2, g1)):
         try:
             trees = enum_trees(ga, "<start>", 9, rx_strings=strings, open_cap=3)
